@@ -310,3 +310,15 @@ impl FragmentAssembler {
     }
   }
 }
+
+// Verification hooks (C02): which fragments of which samples are in the assembly buffers.
+#[cfg(rustdds_verif)]
+impl FragmentAssembler {
+  pub(crate) fn verif_c02_buffers(&self) -> Vec<(i64, Vec<bool>)> {
+    self
+      .assembly_buffers
+      .iter()
+      .map(|(sn, ab)| (i64::from(*sn), ab.received_bitmap.iter().collect()))
+      .collect()
+  }
+}
